@@ -61,6 +61,20 @@ Stmt(t) ==
       \* a code-block argument that defines a label, spliced inside explicit blocks of the body
       [] t = "BSP" -> [k |-> "block", b |-> <<[k |-> "splice", p |-> "p"]>>]
       [] t = "AP1kl" -> [k |-> "apply", n |-> "m1", as |-> <<[k |-> "code", b |-> <<Lab("k"), Dat("dl", I("k"))>>]>>]
+      \* a position given as a DECIMAL literal (0x018000 = 98304)
+      [] t = "S3d" -> [k |-> "stareq", e |-> [k |-> "num", v |-> 98304, dec |-> TRUE]]
+      [] t = "A1d" -> [k |-> "ateq", e |-> [k |-> "num", v |-> 98304, dec |-> TRUE]]
+      \* an unsuffixed operand over the macro parameter, applied with arguments of different widths
+      [] t = "LDp" -> Op("lda", "dir", "", I("p")) [] t = "AP1w" -> [k |-> "apply", n |-> "m1", as |-> <<N(4660)>>]
+      [] t = "AP1z" -> [k |-> "apply", n |-> "m1", as |-> <<N(0)>>]
+      \* a value parameter and an enclosing application's code-block parameter of the same name
+      [] t = "Mdb" -> [k |-> "macro", n |-> "m1", ps |-> <<"p">>, b |-> <<Dat("db", I("p"))>>]
+      [] t = "Mwrap" -> [k |-> "macro", n |-> "m2", ps |-> <<"a", "p">>, b |-> <<[k |-> "apply", n |-> "m1", as |-> <<N(66)>>], [k |-> "splice", p |-> "p"]>>]
+      \* a macro whose body branches on its first parameter; the second argument is a forward label (deferred)
+      [] t = "Mifa" -> [k |-> "macro", n |-> "m2", ps |-> <<"a", "p">>,
+                        b |-> <<[k |-> "if", e |-> I("a"), t |-> <<Dat("db", N(17))>>, hasf |-> TRUE, f |-> <<Dat("db", N(34))>>], Dat("dl", I("p"))>>]
+      [] t = "AP20b" -> [k |-> "apply", n |-> "m2", as |-> <<N(0), I("b")>>]
+      [] t = "AP21b" -> [k |-> "apply", n |-> "m2", as |-> <<N(1), I("b")>>]
       [] t = "SPa" -> [k |-> "splice", p |-> "a"]
       [] t = "AP2na" -> [k |-> "apply", n |-> "m2", as |-> <<N(1), I("a")>>]      \* second argument named like the first parameter
       [] t = "AP2ab" -> [k |-> "apply", n |-> "m2", as |-> <<I("b"), N(2)>>]
@@ -69,7 +83,7 @@ Stmt(t) ==
       [] t = "DBi" -> Dat("db", I("i")) [] t = "DLi" -> Dat("dl", I("i"))
       [] t = "SPp" -> [k |-> "splice", p |-> "p"]
       [] t = "A5" -> [k |-> "assign", n |-> "a", e |-> N(5)]
-      [] t = "BRa" -> [k |-> "branch", mn |-> "bra", e |-> I("a")]
+      [] t = "BRa" -> [k |-> "branch", mn |-> "bra", e |-> I("a")] [] t = "BRc" -> [k |-> "branch", mn |-> "bra", e |-> I("c")]
 
 AlphaSeq ==
     CASE Family = "moves"  -> <<"S1", "S2", "S3", "S4", "S5", "A1", "A2", "A3", "DB", "DWa", "La", "NOP", "{", "}">>
@@ -102,20 +116,27 @@ AlphaSeq ==
       [] Family = "recur" -> <<"M1{", "IFp{", "}", "DBp", "AP1d", "AP1n2">>
       [] Family = "caselabels" -> <<"Lq", "LQ", "DLq", "DLQ", "DB", "{", "}">>
       \* a *= to the very address relocated code has reached (@= ROM), then more bytes
-      [] Family = "moves2" -> <<"A1", "DB", "S5", "S3", "La", "DLa">>
+      [] Family = "moves2" -> <<"A1", "DB", "S5", "S3", "La", "DLa", "S3d", "A1d">>
       [] Family = "symshadow" -> <<"C10", "Lc", "Evc", "DLv", "{", "}", "FORc02{">>
       [] Family = "symparam" -> <<"P7", "Mvp", "AP1a", "AP1n", "La", "{", "}">>
       [] Family = "spliceblk" -> <<"M1{", "}", "BSP", "SPp", "AP1kl", "AP1k", "DB">>
+      [] Family = "macrowidth" -> <<"M1{", "}", "LDp", "La", "DLa", "AP1n", "AP1w">>
+      [] Family = "codeprec" -> <<"Mdb", "Mwrap", "AP2nk", "AP2kn", "AP1n", "DB", "{", "}">>
+      \* a loop that starts below zero
+      [] Family = "forneg" -> <<"FORm12{", "}", "DBi", "DLi", "La", "DB">>
+      [] Family = "deferall" -> <<"Mifa", "AP20b", "AP21b", "Lb", "DB", "{", "}">>
+      \* a label of an enclosing block, defined AFTER an inner block that uses the name, shadows the global one
+      [] Family = "fwdshadow" -> <<"Lc", "LDc", "BRc", "{", "}">>
       [] Family = "tiny"   -> <<"La", "DB", "DLa", "{", "}", "S3">>
 Alphabet == Range(AlphaSeq)
 TokIndex(t) == CHOOSE j \in 1..Len(AlphaSeq) : AlphaSeq[j] = t
 
 \* ---- token string -> nested program body -------------------------------------------------
-Openers == {"{", "N{", "M0{", "M1{", "M2{", "IF1{", "IF0{", "IFc{", "IFu{", "IFm{", "IFp{", "FOR02{", "FOR13{", "FOR20{", "FOR0c{", "FOR0p{", "FORc02{"}
+Openers == {"{", "N{", "M0{", "M1{", "M2{", "IF1{", "IF0{", "IFc{", "IFu{", "IFm{", "IFp{", "FOR02{", "FOR13{", "FOR20{", "FOR0c{", "FOR0p{", "FORc02{", "FORm12{"}
 IfCond(t) == CASE t = "IF1{" -> N(1) [] t = "IF0{" -> N(0) [] t = "IFc{" -> I("c") [] t = "IFu{" -> I("undefinedname")
                [] t = "IFm{" -> N(0 - 1) [] t = "IFp{" -> I("p")
-ForLo(t) == CASE t = "FOR13{" -> N(1) [] t = "FOR20{" -> N(2) [] OTHER -> N(0)
-ForHi(t) == CASE t \in {"FOR02{", "FORc02{"} -> N(2) [] t = "FOR13{" -> N(3) [] t = "FOR20{" -> N(0) [] t = "FOR0c{" -> I("c") [] t = "FOR0p{" -> I("p")
+ForLo(t) == CASE t = "FOR13{" -> N(1) [] t = "FOR20{" -> N(2) [] t = "FORm12{" -> N(0 - 1) [] OTHER -> N(0)
+ForHi(t) == CASE t \in {"FOR02{", "FORc02{", "FORm12{"} -> N(2) [] t = "FOR13{" -> N(3) [] t = "FOR20{" -> N(0) [] t = "FOR0c{" -> I("c") [] t = "FOR0p{" -> I("p")
 RECURSIVE TreeFrom(_, _)
 \* parses ts from p up to the matching close: [body, next, term]; term is "}" / "}E{" (else) / "end"
 TreeFrom(ts, p) ==
